@@ -134,6 +134,48 @@ def check_bond_writers(ctx, rule, prog):
         raise AnalysisError('L1: fewer than 3 writers of bonded_atoms found')
 
 
+def check_bridge_flag_written(ctx, rule, prog):
+    """C01.R5 / C11.R5: ``cysteine_bridge`` is written only by the pair routine
+    of the bond maker, for both atoms, under exactly the pair criterion and
+    both elements being sulphur (no residue-name or other extra condition: a
+    cysteine bonded to the sulphur of any other residue is bridged too)."""
+    mod = prog.mod('bonds')
+    pair = mod.func('BondMaker._find_bonds_for_atoms')
+    fact_kind = pair_fact_kind(pair)
+    stores = []
+    for m2, q2, f2 in prog.all_funcs():
+        for node in walk_no_nested(f2):
+            if isinstance(node, (ast.Assign, ast.AugAssign, ast.AnnAssign)):
+                tgts = node.targets if isinstance(node, ast.Assign) else [node.target]
+                for t in tgts:
+                    if isinstance(t, ast.Attribute) and t.attr == 'cysteine_bridge':
+                        stores.append((m2, q2, f2, node, t))
+    in_pair = [s for s in stores if s[2] is pair]
+    ctx.ob(rule, 'bridge:only-pair-routine-writes',
+           len(in_pair) == len(stores),
+           'cysteine_bridge is written only by the pair routine of the bond maker '
+           '(writers: %s)' % sorted({s[0].name + '.' + s[1] for s in stores}),
+           stores[0][0] if stores else mod,
+           next((s[3] for s in stores if s[2] is not pair), pair))
+    true_stores = [s for s in in_pair if isinstance(s[3], ast.Assign)
+                   and isinstance(s[3].value, ast.Constant) and s[3].value.value is True]
+    pparams = [a.arg for a in pair.args.args if a.arg != 'self']
+    owners = sorted(dotted(s[4].value) or '?' for s in true_stores)
+    ctx.ob(rule, 'bridge:both-atoms-flagged',
+           owners == sorted(pparams) and len(true_stores) == len(in_pair),
+           'both atoms of the pair get cysteine_bridge = True (owners: %s)' % owners,
+           mod, true_stores[0][3] if true_stores else pair)
+    if true_stores:
+        blocks = {id(s[3]._parent) for s in true_stores}
+        kinds5 = sorted(fact_kind(e, p) for e, p in facts_at(true_stores[0][3], pair))
+        want = {'criterion'} | {'sulfur:' + v for v in pparams}
+        ctx.ob(rule, 'bridge:condition',
+               len(blocks) == 1 and want <= set(kinds5) and
+               set(kinds5) <= want | {'irreflexive', 'not-yet-bonded'},
+               'the flags are set in one block, under exactly the pair criterion and both '
+               'elements being sulfur (dominating facts: %s)' % kinds5, mod, true_stores[0][3])
+
+
 def check_bridge_not_titrated(ctx, rule, prog):
     """C01.R5 / C11.R5: a bridged cysteine is not titratable and is reported
     with the fixed value."""
@@ -472,6 +514,21 @@ def check_linear_fields(ctx, rule, prog):
     ctx.ob(rule, 'add_determinant:add-or-append-copy', ok,
            'add_determinant adds to the determinant of the same partner or appends a fresh copy '
            '(never aliases the source determinant)', mod, addd)
+    # ... where "same partner" is group equality (which tells hetero groups of
+    # equal printed label apart by residue number), compared on the partner
+    # groups of the two determinants
+    same = False
+    if len(aug) == 1:
+        own = norm(aug[0].target)[:-len('.value')]
+        src = norm(aug[0].value)[:-len('.value')]
+        for e, pol in facts_at(aug[0], addd):
+            if pol and isinstance(e, ast.Compare) and len(e.ops) == 1 and isinstance(e.ops[0], ast.Eq) \
+                    and {norm(e.left), norm(e.comparators[0])} == {own + '.group', src + '.group'}:
+                same = True
+    ctx.ob(rule, 'add_determinant:row-match-by-partner-group', same,
+           'add_determinant adds a value to an existing row only when the two determinants\' partner '
+           'groups are equal (Group.__eq__); the printed label alone is shared by two ions or ligand '
+           'copies of one chain, whose rows would be folded into one', mod, aug[0] if aug else addd)
     # clone
     copied = {}
     res_var = None
